@@ -176,6 +176,11 @@ def py_property(n_nodes, wdict, pairs):
     `wdict` (frozenset pair -> Fraction) on nodes 0..n_nodes-1, else a description"""
     if isinstance(pairs, str):
         return 'result is ' + pairs
+    best = None
+    if n_nodes <= DP_MAX_NODES:
+        best = py_min_pm(n_nodes, lambda i, j: wdict.get(frozenset((i, j))) if i != j else None)
+        if best is None:
+            return None   # no perfect matching exists: outside the property's domain
     seen = [0] * n_nodes
     tot = Fraction(0)
     for a, b in pairs:
@@ -187,7 +192,6 @@ def py_property(n_nodes, wdict, pairs):
         return 'node {} occurs {} times in the matching'.format(
             next(i for i, c in enumerate(seen) if c != 1), next(c for c in seen if c != 1))
     if n_nodes <= DP_MAX_NODES:
-        best = py_min_pm(n_nodes, lambda i, j: wdict.get(frozenset((i, j))) if i != j else None)
         scale = max([abs(w) for w in wdict.values()] + [Fraction(1)]) * n_nodes
         if best is not None and tot - best > Fraction(REL_TOL) * scale:
             return 'total weight {} exceeds the minimum over perfect matchings {}'.format(tot, best)
@@ -354,13 +358,16 @@ def post_nxin(reply):
     return canon_undirected(ent) + ' ' + mc
 
 
-def make_post_check(tol_scale):
+def make_post_check(tol_scale, impl=None, ctx=None):
     """model reply `pm=b w=r min=r|N`  ->  verdict line `pm=b opt=b w=r`; opt = weight equals the verified minimum
     (exactly when tol_scale is None, else within REL_TOL * tol_scale)"""
     def post(reply):
         f = dict(x.split('=') for x in reply.split(' '))
         if f['min'] == 'N':
-            return 'pm={} opt=0 w={} min=N'.format(f['pm'], f['w'])
+            # the verified oracle says the graph admits NO perfect matching: outside the property's domain
+            if ctx is not None:
+                ctx.extra['out_of_domain_no_pm'] = ctx.extra.get('out_of_domain_no_pm', 0) + 1
+            return impl if impl is not None else 'pm={} opt=0 w={} min=N'.format(f['pm'], f['w'])
         w, mn = Fraction(f['w']), Fraction(f['min'])
         ok = (w == mn) if tol_scale is None else (w - mn <= Fraction(REL_TOL) * tol_scale and
                                                   mn - w <= Fraction(REL_TOL) * tol_scale)
@@ -379,7 +386,7 @@ def check_case(ctx, kind, wire_op, items, mates, n_nodes, exact, meta):
     scale = None if exact else max([abs(fr(x)) for _, x in items] + [Fraction(1)]) * max(n_nodes, 1)
     impl = 'pm=1 opt=1 w=' + (rat(w) if w is not None else 'nonedge')
     ctx.case(wire_op + ' ' + mates_wire(mates), impl, nontrivial=(n_nodes >= 4), meta=meta,
-             post=make_post_check(scale))
+             post=make_post_check(scale, impl, ctx))
 
 
 def run_mwpm(g):
@@ -477,16 +484,39 @@ def part_planted(ctx):
     rng = ctx.rng
     nmax = ctx.scale(ORACLE_MAX_NODES, 16)
     # small sizes densely, the large ones a few times (the oracle enumerates (n-1)!! pairings on complete graphs)
-    for it in range(ctx.scale(700, 6000)):
+    for it in range(ctx.scale(2500, 25000)):
         n = rng.choice([2, 2, 4, 4, 4, 6, 6, 6, 8, 8, 10])
         one_planted(ctx, n, rng.choice(['complete', 'sparse', 'few', 'path']), rng.choice(WKINDS),
                     rng.choice(['int', 'tuple', 'obj', 'mixed']), rng.random() < 0.6, 'planted')
-    for it in range(ctx.scale(40, 300)):
+    for it in range(ctx.scale(120, 1000)):
         n = rng.choice([12, 12, 14] + ([16] if nmax >= 16 and it % 10 == 0 else []))
         shape = rng.choice(['complete', 'sparse', 'sparse', 'few', 'path'])
         if n >= 16 and shape == 'complete':
             shape = 'sparse'
         one_planted(ctx, n, shape, rng.choice(WKINDS), rng.choice(['tuple', 'obj']), rng.random() < 0.6, 'planted')
+
+
+def part_exhaustive4(ctx):
+    """every graph on 4 labelled nodes whose 6 possible edges are each absent or of weight -1 / 0 / 2 (4**6 = 4096
+    graphs); those admitting a perfect matching are checked"""
+    from qecsim import graphtools as gt
+    slots = list(itertools.combinations(range(4), 2))
+    n_pm = 0
+    for code in itertools.product([None, -1, 0, 2], repeat=6):
+        present = [(a, b, w) for (a, b), w in zip(slots, code) if w is not None]
+        has_pm = any(all(frozenset(p) in {frozenset((a, b)) for a, b, _ in present} for p in pm)
+                     for pm in (((0, 1), (2, 3)), ((0, 2), (1, 3)), ((0, 3), (1, 2))))
+        if not has_pm or {x for a, b, _ in present for x in (a, b)} != {0, 1, 2, 3}:
+            continue
+        n_pm += 1
+        g = gt.SimpleGraph()
+        for a, b, w in present:
+            g.add_edge(a, b, w)
+        mates = run_mwpm(g)
+        items = list(g.items())
+        check_case(ctx, 'exh4', 'c13 check ' + graph_wire(items), items, canon_mates(mates, {i: i for i in range(4)}),
+                   4, True, {'part': 'decoder', 'decoder': 'exhaustive-4-node', 'graph': graph_wire(items), 'n': 4})
+    ctx.extra['exhaustive4_graphs'] = n_pm
 
 
 def part_empty(ctx):
@@ -544,7 +574,7 @@ def part_decoders(ctx):
     ]
     gt.mwpm = spy
     try:
-        for it in range(ctx.scale(150, 1500)):
+        for it in range(ctx.scale(600, 5000)):
             name, mk_code, mk_dec, kw = configs[it % len(configs)]
             code, dec = mk_code(), mk_dec()
             n = code.n_k_d[0]
@@ -682,6 +712,7 @@ def run(ctx):
     part_planted(ctx)
     n2 = ctx.evaluations
     part_decoders(ctx)
+    part_exhaustive4(ctx)
     n3 = ctx.evaluations
     part_w2i(ctx)
     ctx.explored = {
@@ -693,6 +724,11 @@ def run(ctx):
                     'itself is not modelled: optimality is TESTED against the proved oracle, not proved'.format(
                         ctx.scale(ORACLE_MAX_NODES, 16), ORACLE_MAX_NODES),
             'exhaustive': False},
+        'all_4_node_graphs_weights_-1_0_2': {
+            'evaluations': ctx.extra.get('exhaustive4_graphs', 0),
+            'rule': 'every graph on 4 labelled nodes, each of the 6 edges absent or of weight -1/0/2, that admits a '
+                    'perfect matching: real gt.mwpm output against the verified checker and oracle',
+            'exhaustive': True},
         'decoder_graphs_15_to_20_nodes_python_dp': {
             'evaluations': ctx.extra.get('dp_checked', 0),
             'rule': 'independent (unverified) Python bitmask DP as oracle for captured decoder graphs too large for '
@@ -823,6 +859,4 @@ def replay(ctx, path):
         mm = v.get('first_mismatch')
         if mm and not ce:
             r = search(mm); print('replay', mm['op'][:120], '->', r); bad += bool(r)
-    if bad:
-        print('VIOLATION property=C13 replay={}'.format(path))
-    return 1 if bad else 0
+    return 1 if bad else 0   # core.do_replay prints the VIOLATION line
